@@ -109,11 +109,17 @@ def build_model(case):
         residual_aperture=so["residual_aperture"], normal_permeability=so["normal_permeability"],
         specific_heat_capacity=so["specific_heat_capacity"],
         thermal_conductivity=so["thermal_conductivity"], density=so["density"])
+    if case.get("history") is None:
+        tm = pp.TimeManager(schedule=[0.0, 8.0], dt_init=case["dt"], constant_dt=True)
+    else:
+        # time-step history: adaptive time manager (dt changes after prepare_simulation)
+        tm = pp.TimeManager(schedule=case.get("schedule", [0.0, 64.0]), dt_init=case["dt"],
+                            constant_dt=False, dt_min_max=(2.0 ** -12, 8.0))
     params = {
         "fracture_indices": list(case["fractures"]),
         "material_constants": {"fluid": fluid, "solid": solid},
         "times_to_export": [],
-        "time_manager": pp.TimeManager(schedule=[0.0, 8.0], dt_init=case["dt"], constant_dt=True),
+        "time_manager": tm,
     }
     for k in ("num_nodes_mortar", "num_nodes_1d", "fracture_refinement_ratio",
               "interface_refinement_ratio"):
@@ -155,6 +161,44 @@ def equations(m, physics, laws="default"):
             lambda s: m.volume_integral(m.total_internal_energy(s), s, dim=1),
             m.energy_flux, m.energy_source, lam, lamf)
     return eqs
+
+
+#: names under which the balance equations are REGISTERED in the equation system (the objects
+#: the solver assembles; built once in set_equations with the model's ad_time_step Scalar)
+REGISTERED = {"mass": "mass_balance_equation", "energy": "energy_balance_equation"}
+
+
+def end_of_step(m, h):
+    """What the step cycle (NewtonSolver.solve / run_time_dependent_model) does after a time
+    step before the next one starts, for one entry h of a time-step history:
+      converged : after_nonlinear_convergence: time_manager.compute_time_step(iterations=k)
+                  [k <= 4 relaxes dt by 1.3, k >= 7 restricts it by 0.7, the schedule truncates],
+                  then update_solution (iterate -> previous time step);
+      failed    : after_nonlinear_failure: compute_time_step(recompute_solution=True) [dt halved,
+                  time and time index stepped back], iterate reset to the previous time step;
+      assign    : the user sets time_manager.dt directly (restart with another dt), the solution
+                  is stored as for a converged step."""
+    tm, es = m.time_manager, m.equation_system
+    if h["how"] == "converged":
+        solution = es.get_variable_values(iterate_index=0)
+        tm.compute_time_step(iterations=int(h["iterations"]))
+        m.update_solution(solution)
+    elif h["how"] == "failed":
+        tm.compute_time_step(recompute_solution=True)
+        es.set_variable_values(es.get_variable_values(time_step_index=0), iterate_index=0)
+    elif h["how"] == "assign":
+        solution = es.get_variable_values(iterate_index=0)
+        tm.dt = float(h["dt"])
+        m.update_solution(solution)
+    else:
+        raise ValueError(h["how"])
+
+
+def start_of_step(m):
+    """Start of a time step as in run_time_dependent_model + NewtonSolver.solve."""
+    m.time_manager.increase_time()
+    m.time_manager.increase_time_index()
+    m.before_nonlinear_loop()
 
 
 def coo(M):
@@ -226,10 +270,19 @@ class C04(Prop):
         "upwind directions refreshed), recomputes in exact rationals flux on every face, source, "
         "Div@flux and the full residual of the model from the real accumulation rate, interior "
         "face fluxes and interface fluxes, and compares with what the real AD operators "
-        "(fluid_flux/energy_flux, fluid_source/energy_source, Divergence@flux, "
-        "mass_balance_equation/energy_balance_equation) evaluate to, plus the conservation "
+        "(fluid_flux/energy_flux, fluid_source/energy_source, Divergence@flux) and the balance "
+        "equations REGISTERED in the equation system (mass_balance_equation / "
+        "energy_balance_equation as EquationSystem.assemble evaluates them, i.e. the operator "
+        "objects built once in set_equations) evaluate to, plus the conservation "
         "identity sum(residual) = sum(accumulation rate) [+ the deficit predicted by (5) for the "
-        "FouriersLawAd variants], all within 1e-9 relative to the magnitude of the terms.  OPEN "
+        "FouriersLawAd variants], all within 1e-9 relative to the magnitude of the terms.  "
+        "TIME-STEP HISTORIES (4 directed cases in every run + ~1/4 of the others): the states are "
+        "the iterates of consecutive time steps of the real step cycle (increase_time, "
+        "before_nonlinear_loop; compute_time_step(iterations) + update_solution after a converged "
+        "step, compute_time_step(recompute_solution=True) after a failed one, or direct assignment "
+        "of time_manager.dt), so the time step differs from the one at prepare_simulation; the "
+        "oracle demands sum(registered residual) = (accumulated now - accumulated at the previous "
+        "time step) / CURRENT time_manager.dt.  OPEN "
         "FINDING (genuine, reproduced): with FouriersLawAd on a fractured domain the energy balance "
         "is not conservative; the oracle reports it as KNOWN-FINDING on every run.")
     level_note = (
@@ -238,7 +291,12 @@ class C04(Prop):
         "intrinsic flux vanishes on closed boundaries (checked numerically: the real flux on "
         "every one-neighbour face must equal sgn_div*(P_primary_int lam)); well (codimension-2) "
         "couplings (no wells are generated); floating-point rounding (theorems are exact; the "
-        "comparison band is 1e-9*(1+sum|acc|+sum|flux|+sum|lam|)).  The theorems are about the "
+        "comparison band is 1e-9*(1+sum|acc|+sum|flux|+sum|lam|)); the time derivative itself is "
+        "not part of the Coq model (the accumulation rate per cell is an input of the model; that "
+        "the registered equations use the CURRENT time step after dt changed - adaptive stepping, "
+        "recomputed step, step truncated by the schedule, dt assigned by the user - is checked by "
+        "the exact-fractions oracle on the time-step histories only, for histories of 3 (quick) / "
+        "5 (thorough) steps).  The theorems are about the "
         "model; the implementation is covered on the generated configurations and states only.  "
         "Trusted: Coq kernel + vm_compute, the harness, exact float->rational conversion.")
     technique = ("Coq proof (regrouping of COO sums by key, induction over entry lists, over any "
@@ -254,7 +312,17 @@ class C04(Prop):
             "Cartesian (quick) / simplex (thorough); constitutive laws: standard (1/2), DarcysLawAd, "
             "FouriersLawAd, both (energy); compressible and incompressible fluid; random "
             "dyadic material constants and time step; 3 (quick) / 5 (thorough) random states per "
-            "configuration incl. an all-zero-interface-flux state; non-trivial = at least one "
+            "configuration incl. an all-zero-interface-flux state; TIME-STEP HISTORIES: the first 4 "
+            "cases of every run (compressible fluid, standard/DarcysLawAd laws; directed: adaptive "
+            "growth compute_time_step(iterations<=4), direct assignment of time_manager.dt, "
+            "restriction iterations>=7 + failed step recompute_solution=True, step truncated by a "
+            "scheduled time) and ~1/4 of the remaining cases (random mix) use an adaptive "
+            "TimeManager and treat the states as iterates of consecutive time steps: "
+            "increase_time, increase_time_index, before_nonlinear_loop, random iterate; between "
+            "steps dt changes and update_solution shifts the iterate to the previous time step; "
+            "the REGISTERED equations (EquationSystem.assemble) are evaluated at every step and "
+            "compared with the change of the accumulated quantity over the CURRENT dt; "
+            "non-trivial = at least one "
             "fracture and a non-zero interface flux; distinct by (case, output)")
     trusted = ["float -> exact rational conversion of the evaluated AD operators; tolerance band "
                "1e-9*(1+sum|acc|+sum|flux|+sum|lam|) evaluated inside Coq"]
@@ -277,9 +345,48 @@ class C04(Prop):
                  "density": d(4, 24)}
         return fluid, solid
 
+    #: directed time-step histories (present in EVERY run, first cases of the stream); each is
+    #: cycled/truncated to the number of transitions; every entry changes dt, so the last time
+    #: step never equals the initial one (factors 1.3, 0.7, 0.5 have no non-trivial product 1)
+    DIRECTED_HISTORIES = [
+        # adaptive growth (cheap steps), as in run_time_dependent_model with constant_dt=False
+        [{"how": "converged", "iterations": 1}, {"how": "converged", "iterations": 3},
+         {"how": "converged", "iterations": 2}, {"how": "converged", "iterations": 4}],
+        # direct assignment of time_manager.dt (restart with another step size)
+        [{"how": "assign", "dt": None}, {"how": "assign", "dt": None},
+         {"how": "converged", "iterations": 9}, {"how": "assign", "dt": None}],
+        # restriction after expensive steps and a failed (recomputed) step
+        [{"how": "converged", "iterations": 8}, {"how": "failed"},
+         {"how": "converged", "iterations": 12}, {"how": "failed"}],
+        # step truncated by a scheduled time (schedule [0, 1.75 dt, 64]), then growth again
+        [{"how": "converged", "iterations": 2}, {"how": "converged", "iterations": 2},
+         {"how": "failed"}, {"how": "assign", "dt": None}],
+    ]
+
+    def _history(self, rng, nstates, dt, directed=None):
+        """nstates-1 changes of the time step between consecutive states."""
+        dts = [x for x in (0.125, 0.25, 0.375, 0.5, 0.75, 1.0, 1.5, 2.0, 3.0) if x != dt]
+        out = []
+        for j in range(nstates - 1):
+            if directed is not None:
+                h = dict(self.DIRECTED_HISTORIES[directed][j % 4])
+            else:
+                u = rng.random()
+                if u < 0.45:
+                    h = {"how": "converged", "iterations": rng.choice([1, 2, 3, 4, 5, 7, 8, 12])}
+                elif u < 0.6:
+                    h = {"how": "failed"}
+                else:
+                    h = {"how": "assign", "dt": None}
+            if h["how"] == "assign":
+                h["dt"] = rng.choice(dts)
+            out.append(h)
+        return out
+
     def generate(self, rng, n, tier):
         quick = tier == "quick"
         nstates = 3 if quick else 5
+        n_directed = min(n, len(self.DIRECTED_HISTORIES))
         for i in range(n):
             physics = "flow" if i % 2 == 0 else "energy"
             r = rng.random()
@@ -319,16 +426,28 @@ class C04(Prop):
                 fr = rng.choice([[], [0], [1, 2], [0, 1, 2]])
                 grid_type = "cartesian"
                 cell_size = 0.5
-            fluid, solid = self._materials(rng, incompressible=rng.random() < 0.25)
+            directed = i if i < n_directed else None
+            # the directed histories need a non-zero accumulation term (compressible fluid)
+            incompressible = rng.random() < 0.25 and directed is None
+            fluid, solid = self._materials(rng, incompressible=incompressible)
             laws = (rng.choice(["default", "default", "darcy_ad"]) if physics == "flow" else
                     rng.choice(["default", "default", "darcy_ad", "fourier_ad", "both_ad"]))
             if extra:
                 laws = "default"     # the non-matching stream uses the standard laws
+            if directed is not None and laws in ("fourier_ad", "both_ad"):
+                laws = "darcy_ad"    # keep the directed histories clear of the open finding
+            dt = rng.choice([0.125, 0.5, 1.0, 2.0])
+            if directed is not None or rng.random() < 0.25:
+                # TIME-STEP HISTORY: the states are the iterates of consecutive time steps and
+                # the time step size changes between them
+                extra = dict(extra, history=self._history(rng, nstates, dt, directed))
+                if directed == 3:
+                    extra["schedule"] = [0.0, 1.75 * dt, 64.0]
             yield {
                 **extra,
                 "physics": physics, "laws": laws, "geometry": geometry, "fractures": fr,
                 "grid_type": grid_type, "cell_size": cell_size,
-                "dt": rng.choice([0.125, 0.5, 1.0, 2.0]),
+                "dt": dt,
                 "fluid": fluid, "solid": solid,
                 "states": [{"seed": rng.randrange(2 ** 31),
                             "zero_interface": (k == nstates - 1 and rng.random() < 0.5)}
@@ -357,7 +476,7 @@ class C04(Prop):
         ops = {}
         for name, (eq, acc, flux, src, lam, lamf) in eqs.items():
             ops[name] = {
-                "res": eq(sds), "mass": acc(sds), "mass_prev": acc(sds).previous_timestep(),
+                "mass": acc(sds), "mass_prev": acc(sds).previous_timestep(),
                 "acc": pp.ad.time_derivatives.dt(acc(sds), m.ad_time_step),
                 "flux": flux(sds), "src": src(sds), "div": div @ flux(sds),
                 "lam": lam(intfs) if nm else None,
@@ -370,27 +489,40 @@ class C04(Prop):
             if isinstance(var.domain, pp.MortarGrid):
                 intf_dofs[es.dofs_of([var])] = True
         evals = []
-        for st in case["states"]:
+        hist = case.get("history")
+        assert hist is None or len(hist) >= len(case["states"]) - 1
+        for k, st in enumerate(case["states"]):
             r = np.random.default_rng(st["seed"])
             prev = r.uniform(0.0, 1.0, ndof)
             cur = r.uniform(-0.5, 1.5, ndof)
             if st["zero_interface"]:
                 prev[intf_dofs] = 0.0
                 cur[intf_dofs] = 0.0
-            es.set_variable_values(prev, time_step_index=0)
+            if hist is not None:
+                # time-step history: state k is the iterate of time step k; between two steps
+                # the time step size changes and the cycle of the real time loop is run
+                if k > 0:
+                    end_of_step(m, hist[k - 1])
+                start_of_step(m)
+            if hist is None or k == 0:
+                es.set_variable_values(prev, time_step_index=0)
             es.set_variable_values(cur, iterate_index=0)
             # refresh stored Darcy fluxes (upwind directions) and discretisations
             m.update_derived_quantities()
             for name, o in ops.items():
-                val = lambda k: [float(x) for x in np.asarray(es.evaluate(o[k])).ravel()]
+                val = lambda k_: [float(x) for x in np.asarray(es.evaluate(o[k_])).ravel()]
                 e = {"eq": name, "dt": float(m.time_manager.dt)}
-                for k in ("res", "mass", "mass_prev", "acc", "flux", "src", "div"):
-                    e[k] = val(k)
+                # the residual of the REGISTERED equation, as the equation system assembles it
+                # (assemble returns the right-hand side, i.e. minus the residual)
+                rhs = es.assemble(evaluate_jacobian=False, equations=[REGISTERED[name]])
+                e["res"] = [float(-x) for x in np.asarray(rhs).ravel()]
+                for key_ in ("mass", "mass_prev", "acc", "flux", "src", "div"):
+                    e[key_] = val(key_)
                 e["lam"] = val("lam") if nm else []
                 e["lamf"] = val("lamf") if nm else []
                 evals.append(e)
         key = (f"{case['physics']}/{case.get('laws', 'default')}/{case['geometry']}/{case['grid_type']}/"
-               f"{len(case['fractures'])}frac")
+               f"{len(case['fractures'])}frac" + ("/dt-history" if hist is not None else ""))
         self.stats[key] = self.stats.get(key, 0) + 1
         return {"structure": structure, "evals": evals}
 
@@ -407,8 +539,10 @@ class C04(Prop):
                               + sum(abs(x) for x in fr(e["mass_prev"]))) / F(e["dt"])
             if abs(total - rate) > TOL * mscale:
                 return (f"{e['eq']} balance, state {k // max(1, len(res['evals']) // len(case['states']))}: "
-                        f"residuals sum to {float(total)!r} but the accumulated quantity changes "
-                        f"at the rate {float(rate)!r} (difference {float(total - rate):.3e})")
+                        f"residuals of the registered equation sum to {float(total)!r} but the "
+                        f"accumulated quantity changes at the rate {float(rate)!r} with the "
+                        f"current time step {e['dt']!r} (initial {case['dt']!r}; difference "
+                        f"{float(total - rate):.3e})")
             if abs(total - sum(acc)) > TOL * scale:
                 return (f"{e['eq']} balance: residuals sum to {float(total)!r}, accumulation term "
                         f"sums to {float(sum(acc))!r}")
@@ -439,11 +573,19 @@ class C04(Prop):
 
     def shrink(self, case, still_fails):
         cur = case
-        for st in case["states"]:
-            c = dict(cur, states=[st])
-            if still_fails(c):
-                cur = c
-                break
+        if case.get("history") is not None:
+            # the states of a time-step history are consecutive: shortest failing prefix
+            for k in range(1, len(case["states"])):
+                c = dict(cur, states=case["states"][:k], history=case["history"][:k - 1])
+                if still_fails(c):
+                    cur = c
+                    break
+        else:
+            for st in case["states"]:
+                c = dict(cur, states=[st])
+                if still_fails(c):
+                    cur = c
+                    break
         for fr in ([], cur["fractures"][:1], cur["fractures"][1:]):
             if len(fr) < len(cur["fractures"]):
                 c = dict(cur, fractures=fr)
